@@ -308,9 +308,12 @@ def run_after_merge(seq, ctx=None):
     gained_u = set(m.records[idx].uri_prefixes) - set(base.records[idx].uri_prefixes)
     if not gained_p and not gained_u:
         return fails
-    conv = Converter([to_record(a), to_record(b)])
-    conv.get_prefixes(include_synonyms=True)
-    conv.add_record(to_record(c), merge=True)
+    try:
+        conv = Converter([to_record(a), to_record(b)])
+        conv.get_prefixes(include_synonyms=True)
+        conv.add_record(to_record(c), merge=True)
+    except ValueError as e:
+        return [(f"valid-collection-rejected/{type(e).__name__}", f"Converter({[a, b]}) + add_record({c}, merge=True): {type(e).__name__}: {str(e)[:120]!r}")]
     live = list(conv.records)
     for how, objs in (("the-same-record-objects", live), ("deep-copies", copy.deepcopy(live))):
         where = f"Converter({[a, b]}) + add_record({c}, merge=True); constructor given {how}"
